@@ -119,6 +119,8 @@ def ident(x):
         return ("data_awaitable", x.name)
     if t is AwaitableItem:
         return ("awaitable_item", x.uid)
+    if isinstance(x, ResultObject):
+        return ("instance_of", ident(x.value))
     return ("o", t.__name__)
 
 
@@ -264,7 +266,7 @@ class Source:
     __slots__ = (
         "world", "plan", "name", "items", "cursor", "n_pulls", "exhausted", "closed",
         "n_aclose", "finalised", "in_flight", "overlaps", "pulls_after_close", "failed",
-        "obj", "agen", "started", "delivered", "n_iters", "refs", "killed",
+        "obj", "agen", "started", "delivered", "n_iters", "refs", "killed", "iters",
     )
 
     def __init__(self, world, plan):
@@ -292,6 +294,7 @@ class Source:
         self.started = False
         self.delivered = 0
         self.n_iters = 0
+        self.iters = []  # (async iterable) every iterator handed out by __aiter__
         self.killed = False  # an exception thrown in (cancellation) ended the async generator
         world.sources[plan.name] = self
 
@@ -351,8 +354,9 @@ class Source:
             ag = self.agen
             return ag is None or ag.ag_frame is None
         if fl in ("aiter_cls", "aiterable", "aiter_full", "aiter_throwonly", "aiter_proxy"):
-            if fl == "aiterable" and self.n_iters == 0:
-                return True
+            if fl == "aiterable":
+                # every cursor the iterable handed out has been closed (or the shared stream ran dry)
+                return self.n_iters == 0 or self.exhausted or all(it.closed_self for it in self.iters)
             return self.n_aclose >= 1 or self.exhausted or self.failed_dead
         return True
 
@@ -690,6 +694,20 @@ class AIterProxy:
         return getattr(self._inner, name)
 
 
+class AIterOfIterable(AIterCls):
+    """One iterator handed out by an async iterable: a cursor of its own that wants closing"""
+
+    __slots__ = ("closed_self",)
+
+    def __init__(self, src):
+        AIterCls.__init__(self, src)
+        self.closed_self = False
+
+    def aclose(self):
+        self.closed_self = True
+        return AIterCls.aclose(self)
+
+
 class AIterable:
     __slots__ = ("src",)
 
@@ -702,7 +720,9 @@ class AIterable:
     def __aiter__(self):
         _iter_fault(self.src)
         self.src.n_iters += 1
-        return AIterCls(self.src)
+        it = AIterOfIterable(self.src)
+        self.src.iters.append(it)
+        return it
 
 
 def make_async_source(world, plan):
@@ -761,7 +781,7 @@ def make_ref_source(world, plan, as_container=False):
 
 # --------------------------------------------------------------------------- callables
 FN_FLAVOURS = ("def", "async", "partial_async", "obj_coro", "obj_awaitable", "obj_falsy", "cls_awaitable", "obj_future",
-               "obj_unhashable")
+               "obj_unhashable", "cls_async_call")
 
 
 class FnPlan:
@@ -971,6 +991,32 @@ class _FutureLike(_HandAwaitable):
         return self.__await__()
 
 
+class ResultObject:
+    """What calling a class gives: an instance.  Its ``__call__`` is a coroutine function - which says nothing about
+    what calling the *class* returns (a plain value: the instance)"""
+
+    __slots__ = ("value",)
+
+    def __init__(self, value):
+        self.value = value
+
+    async def __call__(self):  # pragma: no cover - nobody is supposed to call, let alone await, the result
+        return ("instance-was-called", self.value)
+
+    def __bool__(self):
+        return bool(self.value)
+
+
+def _class_with_async_call(fn, sync):
+    class Job(ResultObject):
+        __slots__ = ()
+
+        def __init__(self, *args):
+            ResultObject.__init__(self, fn.sync_call(*args))
+
+    return Job
+
+
 def _awaitable_class(fn):
     """A *class* used as the callable: calling it builds an awaitable instance"""
 
@@ -1021,6 +1067,8 @@ def make_async_fn(world, plan):
         fn.obj = _FalsyCallable(fn.async_call)
     elif fl == "obj_unhashable":
         fn.obj = _UnhashableCallable(fn.async_call)
+    elif fl == "cls_async_call":
+        fn.obj = _class_with_async_call(fn, False)
     elif fl == "cls_awaitable":
         fn.obj = _awaitable_class(fn)
     elif fl == "obj_future":
@@ -1032,6 +1080,9 @@ def make_async_fn(world, plan):
 
 def make_ref_fn(world, plan):
     fn = Fn(world, plan)
+    if plan.flavour == "cls_async_call":
+        fn.obj = _class_with_async_call(fn, True)
+        return fn
     sync_call = fn.sync_call
 
     def plain(*args):
